@@ -102,6 +102,13 @@ func (d *drive) note(s string) {
 	d.nmu.Unlock()
 }
 
+// waitCalls waits (bounded) for the pending Reload / send / async-subscribe goroutines
+func (d *drive) waitCalls(max time.Duration) bool {
+	ch := make(chan struct{})
+	go func() { d.wg.Wait(); close(ch) }()
+	return waitCh(ch, max)
+}
+
 func (d *drive) quiet() { d.l.rec.WaitQuiescentN(200*time.Millisecond, 3, 200*time.Microsecond) }
 
 func (d *drive) callRun() {
@@ -411,7 +418,7 @@ func compositeCase(w *bufio.Writer, rng *prng.R, id string) {
 		d.note("late-reload")
 		cbMode.Store(0)
 		reload(0, false)
-		d.wg.Wait()
+		d.waitCalls(150 * time.Millisecond) // bounded: a repaired Run may exclude Reload until it has returned
 		d.quiet()
 		endPark.Release()
 	}
